@@ -37,4 +37,11 @@ MoashaAllowed(X, rfn, rfd) ==
       hi  == lo + Cardinality({i \in 1..n : L[i] = L[n]}) - 1        \* worst possible position
       \* position / n > 1 / rf  <=>  position * rfn > n * rfd   (rf = rfn / rfd)
   IN  (IF lo * rfn > n * rfd THEN {} ELSE {"CONTINUE"}) \cup (IF hi * rfn > n * rfd THEN {"STOP"} ELSE {})
+
+\* MOASHA with a scalar priority (FixedObjectivePriority, LinearScalarizationPriority): P = priorities recorded at the
+\* rung, the new one LAST.  Equal priorities share a rank: the rank of the new entry is the number of strictly better ones.
+MoashaScalarAllowed(P, rfn, rfd) ==
+  LET n   == Len(P)
+      pos == Cardinality({i \in 1..n : P[i] < P[n]})
+  IN  IF pos * rfn > n * rfd THEN {"STOP"} ELSE {"CONTINUE"}
 =============================================================================
